@@ -1,7 +1,7 @@
 """C10 — link-layer envelopes are transparent: Nack, PIT token, wrapped packets (DESIGN §4 C10)."""
 import ast
 
-from .common import ctx, family, returns, calls_in_ctx, reach_from_succ, site, srcs_text, truthy_label, resolve_call, call_arg, bound_args, alias_text, explore
+from .common import ctx, family, returns, calls_in_ctx, reach_from_succ, site, srcs_text, truthy_label, resolve_call, call_arg, bound_args, alias_text, explore, shared_obligations
 from ..flow import callee_attr
 from ..loader import AnalysisError, norm, FuncT
 from ..models import models_of
@@ -387,4 +387,6 @@ def run(R):
         R.ok('C10.FLD.1', inst, site(mk, mk.f.node))
     else:
         R.fail('C10.FLD.1', inst, mk.qual, 'def make_network_nack', f'make_network_nack builds {stores}', site(mk, mk.f.node))
+    R.ob('C10.SHR.1', 'shared with C03: completing the Interests pending under a nacked name cannot fail on one that is already finished (guarded completion)')
+    shared_obligations(R, 'C10.SHR.1', 'C03', {'C03.FUT.1': lambda i_: 'nack_interest' in i_})
     R.assumptions += ['NDNLPv2 type numbers as transcribed', 'TlvModel encode/parse (C08)', 'value-level behaviour for all header combinations is not decided']
